@@ -898,4 +898,509 @@ theorem dec_alias_median (sf : SF K) (lv : Option K) (ys : List K) (cols : List 
 
 end Ordered
 
+
+/-! ## B. Analytic part (ordered fields) -/
+
+section Totals
+variable {K : Type} [Field K] [LinearOrder K] [IsStrictOrderedRing K] [Inhabited K]
+
+/-- the weights `decompose` / `fit` effectively use: the given ones, or all `1` -/
+def dec_wts (y : List K) (w : Option (List K)) : List K :=
+  match w with
+  | some w' => w'
+  | none => y.map (fun _ => (1 : K))
+
+omit [Inhabited K] in
+theorem dec_wts_length (y : List K) (w : Option (List K))
+    (hw : ∀ w', w = some w' → w'.length = y.length) : (dec_wts y w).length = y.length := by
+  cases w with
+  | none => simp [dec_wts]
+  | some w' => exact hw w' rfl
+
+omit [Inhabited K] in
+theorem dec_wts_congr {y y' : List K} (w : Option (List K)) (h : y.length = y'.length) :
+    dec_wts y w = dec_wts y' w := by
+  cases w with
+  | none => simp only [dec_wts]; rw [List.map_const', List.map_const', h]
+  | some w' => rfl
+
+omit [Inhabited K] in
+theorem dec_zipRows_cols (X y ws : List K) (hX : X.length = y.length) (hl : ws.length = y.length) :
+    (List.zipWith (fun (p : K × K) v => (⟨p.1, p.2, v⟩ : Row K)) (List.zip X y) ws).map (·.x) = X ∧
+    (List.zipWith (fun (p : K × K) v => (⟨p.1, p.2, v⟩ : Row K)) (List.zip X y) ws).map (·.y) = y ∧
+    (List.zipWith (fun (p : K × K) v => (⟨p.1, p.2, v⟩ : Row K)) (List.zip X y) ws).map (·.w) = ws := by
+  induction X generalizing y ws with
+  | nil =>
+    have : y = [] := List.length_eq_zero_iff.mp (by simpa using hX.symm)
+    subst this
+    have : ws = [] := List.length_eq_zero_iff.mp (by simpa using hl)
+    subst this
+    simp
+  | cons a X ih =>
+    cases y with
+    | nil => simp at hX
+    | cons b y =>
+      cases ws with
+      | nil => simp at hl
+      | cons c ws =>
+        obtain ⟨h1, h2, h3⟩ := ih y ws (by simpa using hX) (by simpa using hl)
+        simp only [List.zip_cons_cons, List.zipWith_cons_cons, List.map_cons, h1, h2, h3]
+        simp
+
+omit [Inhabited K] in
+/-- the columns of the rows `fit` builds -/
+theorem dec_fit_rows_cols (X y : List K) (w : Option (List K)) (hX : X.length = y.length)
+    (hw : ∀ w', w = some w' → w'.length = y.length) :
+    (fit_rows X y w).map (·.x) = X ∧ (fit_rows X y w).map (·.y) = y ∧
+      (fit_rows X y w).map (·.w) = dec_wts y w := by
+  have hl := dec_wts_length y w hw
+  have e : fit_rows X y w
+      = List.zipWith (fun (p : K × K) v => (⟨p.1, p.2, v⟩ : Row K)) (List.zip X y) (dec_wts y w) := by
+    unfold fit_rows dec_wts
+    cases w <;> rfl
+  rw [e]
+  exact dec_zipRows_cols X y _ hX hl
+
+omit [Inhabited K] in
+/-- the total score of a function of `X` in the original row order is a sum over the rows … -/
+theorem dec_total_rows (S : Obs K → K → K) (g : K → K) (X y : List K) (w : Option (List K))
+    (hX : X.length = y.length) (hw : ∀ w', w = some w' → w'.length = y.length) :
+    total S (y.zip (dec_wts y w)) (X.map g)
+      = ((fit_rows X y w).map (fun a => S (a.y, a.w) (g a.x))).sum := by
+  obtain ⟨h1, h2, h3⟩ := dec_fit_rows_cols X y w hX hw
+  have := fit_total_rows S g (fit_rows X y w)
+  rw [h1, h2, h3] at this
+  exact this
+
+omit [Inhabited K] in
+/-- … hence the same in the sorted order -/
+theorem dec_total_sorted (S : Obs K → K → K) (g : K → K) (inc : Bool) (X y : List K)
+    (w : Option (List K)) (hX : X.length = y.length)
+    (hw : ∀ w', w = some w' → w'.length = y.length) :
+    total S (y.zip (dec_wts y w)) (X.map g)
+      = total S (((fit_sorted inc X y w).map (·.y)).zip ((fit_sorted inc X y w).map (·.w)))
+          (((fit_sorted inc X y w).map (·.x)).map g) := by
+  rw [dec_total_rows S g X y w hX hw, fit_total_rows]
+  have hperm : (fit_sorted inc X y w).Perm (fit_rows X y w) := List.mergeSort_perm _ _
+  exact ((hperm.map _).sum_eq).symm
+
+/-- the weights of the sorted sample are the effective weights of its responses -/
+theorem dec_sorted_wts (inc : Bool) (X y : List K) (w : Option (List K)) :
+    dec_wts ((fit_sorted inc X y w).map (·.y)) (w.map (fun _ => (fit_sorted inc X y w).map (·.w)))
+      = (fit_sorted inc X y w).map (·.w) := by
+  cases w with
+  | some w' => rfl
+  | none =>
+    simp only [dec_wts, Option.map_none, List.map_map]
+    apply List.map_congr_left
+    intro a ha
+    have : a ∈ fit_rows X y none := List.mem_mergeSort.mp ha
+    exact (fit_rows_none_w X y a this).symm
+
+/-! ### the recalibrated forecasts are optimal among the monotone functions of the forecast -/
+
+/-- the weighted per-observation score built from a per-pair score -/
+def dec_wS (S : K → K → K) : Obs K → K → K := fun o z => o.2 * S o.1 z
+
+/-- "`S` is minimised by the isotonic fit of functional `f` at level `lv`": whenever
+`isotonic_regression` succeeds on responses taken from `ys`, its output has a total weighted score
+not larger than that of any non-decreasing sequence with values in `dom` -/
+def dec_FitOpt (f : Functional) (lv : K) (S : K → K → K) (dom : K → Prop) (ys : List K) : Prop :=
+  ∀ (y : List K) (wopt : Option (List K)) (yiso : List K) (r : List Nat),
+    isoReg (some f) lv true y wopt = .ok (yiso, r) → (∀ v ∈ y, v ∈ ys) →
+    ∀ zs : List K, zs.length = y.length → zs.Pairwise (· ≤ ·) → (∀ z ∈ zs, dom z) →
+      total (dec_wS S) (y.zip (dec_wts y wopt)) yiso ≤ total (dec_wS S) (y.zip (dec_wts y wopt)) zs
+
+/-- **Recalibration is optimal among monotone functions of the forecast** (abstract form): if the
+isotonic fit minimises `S` (`dec_FitOpt`), then on the training rows `(X, y, w)` the fitted model
+evaluated at `X` has a total score not larger than `g ∘ X` for every non-decreasing `g` that maps
+the forecasts into `dom`. -/
+theorem dec_recal_le {f : Functional} {lv : K} {S : K → K → K} {dom : K → Prop} {X y : List K}
+    {w : Option (List K)} {tx ty : List K} (h : isoFit (some f) lv true X y w = .ok (tx, ty))
+    (hopt : dec_FitOpt f lv S dom y) (g : K → K) (hg : Monotone g) (hgdom : ∀ x ∈ X, dom (g x)) :
+    total (dec_wS S) (y.zip (dec_wts y w)) (X.map (interp tx ty))
+      ≤ total (dec_wS S) (y.zip (dec_wts y w)) (X.map g) := by
+  obtain ⟨hX, hw, _⟩ := fit_isoFit_inv h
+  obtain ⟨yiso, r, hr⟩ := fit_isoFit_exists h
+  have F := fit_isoFit_fitted h hr
+  rw [dec_total_sorted _ _ true X y w hX hw, dec_total_sorted _ _ true X y w hX hw, F.train_list]
+  have hmemy : ∀ v ∈ (fit_sorted true X y w).map (·.y), v ∈ y := by
+    intro v hv
+    obtain ⟨a, ha, rfl⟩ := List.mem_map.mp hv
+    have ha' : a ∈ fit_rows X y w := List.mem_mergeSort.mp ha
+    rw [← (dec_fit_rows_cols X y w hX hw).2.1]
+    exact List.mem_map.mpr ⟨a, ha', rfl⟩
+  have hmemx : ∀ v ∈ (fit_sorted true X y w).map (·.x), v ∈ X := by
+    intro v hv
+    obtain ⟨a, ha, rfl⟩ := List.mem_map.mp hv
+    have ha' : a ∈ fit_rows X y w := List.mem_mergeSort.mp ha
+    rw [← (dec_fit_rows_cols X y w hX hw).1]
+    exact List.mem_map.mpr ⟨a, ha', rfl⟩
+  have := hopt _ _ yiso r hr hmemy (((fit_sorted true X y w).map (·.x)).map g)
+    (by simp) (by
+      rw [List.pairwise_map]
+      exact (fit_sorted_x true _).imp (fun hab => hg hab))
+    (by
+      intro z hz
+      obtain ⟨x, hx, rfl⟩ := List.mem_map.mp hz
+      exact hgdom x (hmemx x hx))
+  rw [dec_sorted_wts] at this
+  exact this
+
+/-- in particular the recalibrated forecasts score at least as well as the forecasts themselves … -/
+theorem dec_recal_le_forecast {f : Functional} {lv : K} {S : K → K → K} {dom : K → Prop}
+    {X y : List K} {w : Option (List K)} {tx ty : List K}
+    (h : isoFit (some f) lv true X y w = .ok (tx, ty)) (hopt : dec_FitOpt f lv S dom y)
+    (hdom : ∀ x ∈ X, dom x) :
+    total (dec_wS S) (y.zip (dec_wts y w)) (X.map (interp tx ty))
+      ≤ total (dec_wS S) (y.zip (dec_wts y w)) X := by
+  have := dec_recal_le h hopt id monotone_id hdom
+  rwa [List.map_id] at this
+
+/-- … and at least as well as any admissible constant forecast -/
+theorem dec_recal_le_const {f : Functional} {lv : K} {S : K → K → K} {dom : K → Prop}
+    {X y : List K} {w : Option (List K)} {tx ty : List K}
+    (h : isoFit (some f) lv true X y w = .ok (tx, ty)) (hopt : dec_FitOpt f lv S dom y)
+    (c : K) (hc : dom c) :
+    total (dec_wS S) (y.zip (dec_wts y w)) (X.map (interp tx ty))
+      ≤ total (dec_wS S) (y.zip (dec_wts y w)) (X.map fun _ => c) :=
+  dec_recal_le h hopt (fun _ => c) monotone_const (fun _ _ => hc)
+
+/-! ### instances of `dec_FitOpt` -/
+
+omit [Inhabited K] in
+/-- a successful weighted call of `isoReg` has non-empty data and positive weights of the right
+length -/
+theorem dec_isoReg_some_ok {f : Functional} {lv : K} {inc : Bool} {y wl x : List K} {r : List Nat}
+    (h : isoReg (some f) lv inc y (some wl) = .ok (x, r)) :
+    y ≠ [] ∧ wl.length = y.length ∧ ∀ v ∈ wl, 0 < v := by
+  obtain ⟨v, hv, _, _⟩ := isoReg_inv h
+  obtain ⟨hne, hlen, hpos, _, _⟩ := eqValidate_ok hv
+  have hv2 : v.2.2 = wl := by
+    simp only [eqValidate] at hv
+    split_ifs at hv
+    cases hv
+    rfl
+  rw [hv2] at hlen hpos
+  exact ⟨hne, hlen, hpos⟩
+
+/-- "the fit of functional `f` at level `lv` is the generalised PAVA of `T`" -/
+structure dec_GpavaFit (f : Functional) (lv : K) (T : List (Obs K) → K) : Prop where
+  weighted : f = .mean ∨ f = .expectile
+  fit : ∀ (y wl x : List K) (r : List Nat),
+    isoReg (some f) lv true y (some wl) = .ok (x, r) → x = expand (gpava T (y.zip wl))
+
+omit [Inhabited K] in
+theorem dec_gpavaFit_mean (lv : K) : dec_GpavaFit .mean lv (wmean (K := K)) := by
+  refine ⟨Or.inl rfl, ?_⟩
+  intro y wl x r h
+  obtain ⟨hne, hlen, hpos⟩ := dec_isoReg_some_ok h
+  have := isoReg_mean_x hne hlen hpos h
+  simpa using this
+
+omit [Inhabited K] in
+theorem dec_gpavaFit_expectile (α : K) (hα0 : 0 < α) (hα1 : α < 1) :
+    dec_GpavaFit .expectile α (expectile α) := by
+  refine ⟨Or.inr rfl, ?_⟩
+  intro y wl x r h
+  obtain ⟨hne, hlen, hpos⟩ := dec_isoReg_some_ok h
+  have := isoReg_expectile_x hα0 hα1 hne hlen hpos h
+  simpa using this
+
+omit [Inhabited K] in
+/-- **generic instance**: an order-sensitive score for the functional whose generalised PAVA is the
+fit.  `hok`: observations from `ys` with positive weight are admissible for the functional;
+`hdom`: every value not below all of `ys` is an admissible prediction. -/
+theorem dec_fitOpt_of_gpava {F : IdFun K} (Sc : OSScore F) {f : Functional} {lv : K}
+    (hfit : dec_GpavaFit f lv F.T) (S : K → K → K) (hS : ∀ o z, Sc.S o z = dec_wS S o z)
+    (ys : List K) (hok : ∀ y ∈ ys, ∀ v, 0 < v → F.ok (y, v))
+    (hdom : ∀ v, (∃ a ∈ ys, a ≤ v) → Sc.dom v) : dec_FitOpt f lv S Sc.dom ys := by
+  intro y wopt yiso r hr hmem zs hz hs hzd
+  have hr' : isoReg (some f) lv true y (some (dec_wts y wopt)) = .ok (yiso, r) := by
+    cases wopt with
+    | none => rw [isoReg_weights_none f hfit.weighted] at hr; exact hr
+    | some wl => exact hr
+  obtain ⟨hne, hlen, hpos⟩ := dec_isoReg_some_ok hr'
+  have hx := hfit.fit _ _ _ _ hr'
+  have hSS : Sc.S = dec_wS S := by funext o z; exact hS o z
+  rw [← hSS, hx]
+  have hys : ∀ o ∈ y.zip (dec_wts y wopt), F.ok o := by
+    intro o ho
+    have := List.of_mem_zip (a := o.1) (b := o.2) ho
+    exact hok o.1 (hmem _ this.1) o.2 (hpos _ this.2)
+  refine fit_optimal Sc _ hys ?_ zs (by rw [zip_length_of_eq hlen, hz]) hzd hs
+  intro b hb
+  obtain ⟨hg, _, hflat⟩ := gpava_spec F.internal _ hys
+  have hgb := hg b hb
+  obtain ⟨⟨o, ho, hle⟩, _⟩ := internal_between F.internal b.data hgb.ne hgb.allok
+  rw [hgb.val]
+  apply hdom
+  refine ⟨o.1, hmem _ ?_, hle⟩
+  have : o ∈ y.zip (dec_wts y wopt) := by
+    rw [← hflat]; exact List.mem_flatMap.mpr ⟨b, hb, ho⟩
+  exact (List.of_mem_zip (a := o.1) (b := o.2) this).1
+
+omit [Inhabited K] in
+/-- **squared error** is minimised by the mean fit -/
+theorem dec_fitOpt_sq (lv : K) (ys : List K) :
+    dec_FitOpt .mean lv (fun y z => (z - y) * (z - y)) (fun _ => True) ys :=
+  dec_fitOpt_of_gpava sqErr (dec_gpavaFit_mean lv) _
+    (by intro o z; simp only [sqErr, dec_wS]; ring) ys (fun _ _ _ hv => hv) (fun _ _ => trivial)
+
+omit [Inhabited K] in
+/-- the **asymmetric squared error** is minimised by the expectile fit -/
+theorem dec_fitOpt_asymSq (α : K) (hα0 : 0 < α) (hα1 : α < 1) (ys : List K) :
+    dec_FitOpt .expectile α (fun y z => (if y ≤ z then 1 - α else α) * ((z - y) * (z - y)))
+      (fun _ => True) ys :=
+  dec_fitOpt_of_gpava (asymSq α hα0 hα1) (dec_gpavaFit_expectile α hα0 hα1) _
+    (by intro o z; simp only [asymSq, dec_wS, eWeight]; ring) ys (fun _ _ _ hv => hv)
+    (fun _ _ => trivial)
+
+omit [Inhabited K] in
+theorem dec_total_congr (S S' : Obs K → K → K) (d : List (Obs K)) (zs : List K)
+    (h : ∀ o ∈ d, ∀ z, S o z = S' o z) : total S d zs = total S' d zs := by
+  unfold total
+  induction d generalizing zs with
+  | nil => simp
+  | cons o d ih =>
+    cases zs with
+    | nil => simp
+    | cons z zs =>
+      simp only [List.zipWith_cons_cons, List.sum_cons]
+      rw [h o (by simp) z, ih zs (fun o' ho' => h o' (by simp [ho']))]
+
+omit [Inhabited K] in
+/-- the **pinball loss** is minimised by the quantile fit (unweighted: the only supported case) -/
+theorem dec_fitOpt_pinball (α : K) (hα0 : 0 < α) (hα1 : α < 1) (ys : List K) :
+    dec_FitOpt .quantile α (fun y z => ((if y ≤ z then (1 : K) else 0) - α) * (z - y))
+      (fun _ => True) ys := by
+  intro y wopt yiso r hr _ zs hz hs _
+  cases wopt with
+  | some wl =>
+    rw [isoReg_quantile_weighted α hα0 hα1] at hr
+    cases hr
+  | none =>
+    have hne : y ≠ [] := by
+      obtain ⟨v, hv, _, _⟩ := isoReg_inv hr
+      exact (eqValidate_ok hv).1
+    have hx := isoReg_quantile_x hα0 hα1 hne hr
+    simp only [orient_true] at hx
+    have hone : ∀ zs' : List K,
+        total (dec_wS (fun y z => ((if y ≤ z then (1 : K) else 0) - α) * (z - y)))
+          (y.zip (dec_wts y none)) zs'
+        = total (pinball α hα0 hα1).S (y.zip (dec_wts y none)) zs' := by
+      intro zs'
+      apply dec_total_congr
+      intro o ho z
+      have h2 : o.2 ∈ dec_wts y none := (List.of_mem_zip (a := o.1) (b := o.2) ho).2
+      obtain ⟨_, _, h1⟩ := List.mem_map.mp h2
+      show o.2 * _ = _
+      rw [← h1, one_mul]
+      rfl
+    rw [hone, hone, hx]
+    exact C02_optimal_inc α hα0 hα1 _ zs (by rw [zip_length_of_eq (by simp [dec_wts]), hz]) hs
+
+end Totals
+
+section Mean
+variable {K : Type} [Field K] [LinearOrder K] [IsStrictOrderedRing K] [ScoreOps K] [Inhabited K]
+
+omit [Field K] [IsStrictOrderedRing K] [ScoreOps K] [Inhabited K] in
+theorem dec_eqK_iff (a b : K) : eqK a b ↔ a = b :=
+  ⟨fun h => le_antisymm h.1 h.2, fun h => h ▸ ⟨le_rfl, le_rfl⟩⟩
+
+omit [ScoreOps K] [Inhabited K] in
+theorem dec_total_eq_zip (S : K → K → K) (ys ws zs : List K) :
+    total (dec_wS S) (ys.zip ws) zs
+      = (List.zipWith (· * ·) ((ys.zip zs).map fun p => S p.1 p.2) ws).sum := by
+  unfold total dec_wS
+  induction ys generalizing ws zs with
+  | nil => simp
+  | cons y ys ih =>
+    cases ws with
+    | nil => simp
+    | cons v ws =>
+      cases zs with
+      | nil => simp
+      | cons z zs =>
+        simp only [List.zip_cons_cons, List.zipWith_cons_cons, List.map_cons, List.sum_cons]
+        rw [ih ws zs]
+        ring
+
+omit [ScoreOps K] [Inhabited K] in
+theorem dec_sum_ones (n : Nat) : (List.replicate n (1 : K)).sum = (n : K) := by
+  induction n with
+  | zero => simp
+  | succ n ih => rw [List.replicate_succ, List.sum_cons, ih]; push_cast; ring
+
+omit [ScoreOps K] [Inhabited K] in
+theorem dec_zipWith_ones (a : List K) (n : Nat) (h : a.length = n) :
+    (List.zipWith (· * ·) a (List.replicate n (1 : K))).sum = a.sum := by
+  induction a generalizing n with
+  | nil => simp
+  | cons x a ih =>
+    cases n with
+    | zero => simp at h
+    | succ n =>
+      rw [List.replicate_succ, List.zipWith_cons_cons, List.sum_cons, List.sum_cons,
+        ih n (by simpa using h), mul_one]
+
+omit [ScoreOps K] [Inhabited K] in
+/-- `np.average` with the effective weights -/
+theorem dec_average_ok (a ys : List K) (w : Option (List K)) (hl : a.length = ys.length)
+    (hw : ∀ w', w = some w' → w'.length = ys.length) (hne : ys ≠ [])
+    (hpos : ∀ v ∈ dec_wts ys w, 0 < v) :
+    average a w
+      = .ok ((List.zipWith (· * ·) a (dec_wts ys w)).sum / (dec_wts ys w).sum) := by
+  have hane : a ≠ [] := by
+    intro h; rw [h] at hl; exact hne (List.length_eq_zero_iff.mp hl.symm)
+  cases w with
+  | none =>
+    unfold average
+    simp only [dec_wts]
+    rw [if_neg hane, List.map_const', dec_sum_ones, dec_zipWith_ones a _ hl, hl]
+    rfl
+  | some w' =>
+    have hwl := hw w' rfl
+    have hwne : w' ≠ [] := by
+      intro h; rw [h] at hwl; exact hne (List.length_eq_zero_iff.mp hwl.symm)
+    have hsum : 0 < w'.sum := List.sum_pos _ hpos hwne
+    unfold average
+    simp only [dec_wts]
+    rw [if_neg (by rw [not_not, hwl, hl]), if_neg (by rw [dec_eqK_iff]; exact hsum.ne')]
+    rfl
+
+omit [Field K] [LinearOrder K] [IsStrictOrderedRing K] [ScoreOps K] [Inhabited K] in
+theorem dec_mapM_map {ε α β : Type} (f : α → Except ε β) (g : α → β) (l : List α)
+    (h : ∀ a ∈ l, f a = .ok (g a)) : l.mapM f = .ok (l.map g) := by
+  induction l with
+  | nil => rfl
+  | cons a l ih =>
+    rw [dec_mapM_cons, h a (by simp), ih (fun p hp => h p (by simp [hp]))]
+    rfl
+
+/-- **`scoring_function(y, z, w)` as a weighted total**: if every pair has the per-pair value
+`S y z`, the call returns the weighted total divided by the sum of the weights -/
+theorem dec_sfMean_ok (sf : SF K) (S : K → K → K) (ys zs : List K) (w : Option (List K))
+    (hlen : zs.length = ys.length)
+    (hS : ∀ p ∈ ys.zip zs, sfPair sf p.1 p.2 = .ok (S p.1 p.2))
+    (hw : ∀ w', w = some w' → w'.length = ys.length) (hne : ys ≠ [])
+    (hpos : ∀ v ∈ dec_wts ys w, 0 < v) :
+    sfMean sf ys zs w
+      = .ok (total (dec_wS S) (ys.zip (dec_wts ys w)) zs / (dec_wts ys w).sum) := by
+  unfold sfMean
+  rw [if_neg (by rw [not_not, hlen])]
+  have hm := dec_mapM_map (fun p : K × K => sfPair sf p.1 p.2) (fun p => S p.1 p.2) (ys.zip zs) hS
+  show (List.mapM (fun p : K × K => sfPair sf p.1 p.2) (ys.zip zs) >>= fun s => average s w) = _
+  rw [hm, dec_total_eq_zip, dec_ok_bind]
+  exact dec_average_ok _ ys w (by simp [hlen]) hw hne hpos
+
+omit [ScoreOps K] in
+/-- a successful `fit` on `(X, y, w)`: matching lengths, non-empty data, positive effective
+weights (so a successful `decompose` with at least one column has positive weights) -/
+theorem dec_isoFit_ok_data {f : Functional} {lv : K} {X y : List K} {w : Option (List K)}
+    {tx ty : List K} (h : isoFit (some f) lv true X y w = .ok (tx, ty)) :
+    X.length = y.length ∧ (∀ w', w = some w' → w'.length = y.length) ∧ y ≠ [] ∧
+      ∀ v ∈ dec_wts y w, 0 < v := by
+  obtain ⟨hX, hw, yiso, r, hr, _, _⟩ := fit_isoFit_inv h
+  obtain ⟨v, hv, _, _⟩ := isoReg_inv hr
+  obtain ⟨hne, _, _, _, _⟩ := eqValidate_ok hv
+  obtain ⟨_, h2, h3⟩ := dec_fit_rows_cols X y w hX hw
+  have hsne : fit_sorted true X y w ≠ [] := by
+    intro he; rw [he] at hne; exact hne rfl
+  have hyne : y ≠ [] := by
+    intro he
+    apply hsne
+    have : (fit_rows X y w).length = 0 := by
+      have := congrArg List.length h2
+      rw [List.length_map] at this
+      rw [this, he]
+      rfl
+    have hperm : (fit_sorted true X y w).Perm (fit_rows X y w) := List.mergeSort_perm _ _
+    exact List.length_eq_zero_iff.mp (by rw [hperm.length_eq, this])
+  refine ⟨hX, hw, hyne, ?_⟩
+  cases w with
+  | none =>
+    intro u hu
+    obtain ⟨_, _, rfl⟩ := List.mem_map.mp hu
+    exact one_pos
+  | some w' =>
+    simp only [Option.map_some] at hr
+    obtain ⟨_, _, hpos⟩ := dec_isoReg_some_ok hr
+    intro u hu
+    rw [← h3] at hu
+    obtain ⟨a, ha, rfl⟩ := List.mem_map.mp hu
+    exact hpos _ (List.mem_map.mpr ⟨a, List.mem_mergeSort.mpr ha, rfl⟩)
+
+omit [ScoreOps K] in
+/-- the recalibrated forecasts are fitted values, hence lie between two observations -/
+theorem dec_recal_range {f : Functional} {lv : K} {X y : List K} {w : Option (List K)}
+    {tx ty : List K} (h : isoFit (some f) lv true X y w = .ok (tx, ty)) :
+    ∀ v ∈ X.map (interp tx ty), (∃ a ∈ y, a ≤ v) ∧ (∃ b ∈ y, v ≤ b) := by
+  obtain ⟨hX, hw, _⟩ := fit_isoFit_inv h
+  obtain ⟨yiso, r, hr⟩ := fit_isoFit_exists h
+  intro v hv
+  obtain ⟨q, hq, rfl⟩ := List.mem_map.mp hv
+  obtain ⟨k, hk, rfl⟩ := List.getElem_of_mem hq
+  obtain ⟨p, hp, _, _, he⟩ := fit_isoFit_train_orig h hr k hk
+  rw [fit_get! X k hk] at he
+  rw [he]
+  have hmem : yiso[p]! ∈ yiso := fit_get!_mem yiso p hp
+  obtain ⟨⟨a, ha, hal⟩, ⟨b, hb, hbl⟩⟩ := isoReg_range hr _ hmem
+  have hsub : ∀ c ∈ (fit_sorted true X y w).map (·.y), c ∈ y := by
+    intro c hc
+    obtain ⟨a, ha, rfl⟩ := List.mem_map.mp hc
+    rw [← (dec_fit_rows_cols X y w hX hw).2.1]
+    exact List.mem_map.mpr ⟨a, List.mem_mergeSort.mp ha, rfl⟩
+  exact ⟨⟨a, hsub a ha, hal⟩, ⟨b, hsub b hb, hbl⟩⟩
+
+/-- **Signs of one row** (generic form).  `S` is the per-pair value of the score on `dom`
+(`hS`), the isotonic fit for the effective functional minimises `S` (`hopt`), every value not below
+all observations is an admissible prediction (`hup`), the marginal and the forecasts are admissible
+and there is no domain repair.  Then miscalibration and discrimination are non-negative. -/
+theorem dec_row_signs (sf : SF K) (f : Functional) (lv : K) (S : K → K → K) (dom : K → Prop)
+    (ys : List K) (w : Option (List K))
+    (hS : ∀ y ∈ ys, ∀ z, dom z → sfPair sf y z = .ok (S y z))
+    (hopt : dec_FitOpt f lv S dom ys) (hup : ∀ v, (∃ a ∈ ys, a ≤ v) → dom v)
+    (hallowed : dec_yminAllowed sf ys w = true) (marg sm : K)
+    (hm : sfMean sf ys (ys.map fun _ => marg) w = .ok sm) (hmd : dom marg)
+    (x : List K) (hx : ∀ z ∈ x, dom z) (row : DecompRow K)
+    (hrow : dec_row sf f lv ys w sm x = .ok row) : 0 ≤ row.mcb ∧ 0 ≤ row.dsc := by
+  obtain ⟨recal, score, scoreRecal, hrec, hsc, hsr, rfl⟩ := (dec_row_ok sf f lv ys w sm x row).mp hrow
+  obtain ⟨tx, ty, hfit, rfl⟩ := dec_recal_ok_allowed hallowed hrec
+  obtain ⟨hX, hw, hne, hpos⟩ := dec_isoFit_ok_data hfit
+  have hW : 0 < (dec_wts ys w).sum := by
+    apply List.sum_pos _ hpos
+    intro he
+    have := dec_wts_length ys w hw
+    rw [he] at this
+    exact hne (List.length_eq_zero_iff.mp this.symm)
+  have hrd : ∀ z ∈ x.map (interp tx ty), dom z := fun z hz => hup z (dec_recal_range hfit z hz).1
+  have pair : ∀ zs : List K, (∀ z ∈ zs, dom z) →
+      ∀ p ∈ ys.zip zs, sfPair sf p.1 p.2 = .ok (S p.1 p.2) := by
+    intro zs hzs p hp
+    have := List.of_mem_zip (a := p.1) (b := p.2) hp
+    exact hS p.1 this.1 p.2 (hzs _ this.2)
+  have e1 := dec_sfMean_ok sf S ys x w hX (pair x hx) hw hne hpos
+  have e2 := dec_sfMean_ok sf S ys (x.map (interp tx ty)) w (by simp [hX]) (pair _ hrd) hw hne hpos
+  have hconst : ys.map (fun _ => marg) = x.map (fun _ => marg) := by
+    rw [List.map_const', List.map_const', hX]
+  have e3 := dec_sfMean_ok sf S ys (ys.map fun _ => marg) w (by simp)
+    (pair _ (by intro z hz; obtain ⟨_, _, rfl⟩ := List.mem_map.mp hz; exact hmd)) hw hne hpos
+  rw [hsc] at e1
+  rw [hsr] at e2
+  rw [hm, hconst] at e3
+  have i1 := dec_recal_le_forecast hfit hopt hx
+  have i2 := dec_recal_le_const hfit hopt marg hmd
+  rw [Except.ok.inj e1, Except.ok.inj e2, Except.ok.inj e3]
+  constructor
+  · show 0 ≤ _ / _ - _ / _
+    rw [← sub_div]
+    exact div_nonneg (by linarith) hW.le
+  · show 0 ≤ _ / _ - _ / _
+    rw [← sub_div]
+    exact div_nonneg (by linarith) hW.le
+
+end Mean
+
 end MD
